@@ -25,20 +25,20 @@ type Engine struct {
 	PPkgs   map[string]*packages.Package
 	Fset    *token.FileSet
 
-	Contracts map[string]*Contract // by function key
-	Defaults  []*Contract
-	Preds     map[string]*PredDef
-	SpecFns   map[string]*SpecFn
-	Axioms    []string
-	SpecDefs  []string
-	RG        map[string]*RGSpec
-	exempt    map[string]bool
-	addrTaken map[*ssa.Function]bool
-	fvCache   map[string][]*ssa.Function
-	refsets   map[*ssa.Function]map[string]bool
-	refAll    map[*ssa.Function]bool
-	Exempted  []string
-	exemptLoops map[string]bool // exempted helpers that contain loops (no invariants: callers' proofs are limited by that)
+	Contracts     map[string]*Contract // by function key
+	Defaults      []*Contract
+	Preds         map[string]*PredDef
+	SpecFns       map[string]*SpecFn
+	Axioms        []string
+	SpecDefs      []string
+	RG            map[string]*RGSpec
+	exempt        map[string]bool
+	addrTaken     map[*ssa.Function]bool
+	fvCache       map[string][]*ssa.Function
+	refsets       map[*ssa.Function]map[string]bool
+	refAll        map[*ssa.Function]bool
+	Exempted      []string
+	exemptLoops   map[string]bool // exempted helpers that contain loops (no invariants: callers' proofs are limited by that)
 	ContractFiles []string
 
 	globalAddr map[*ssa.Global]int
@@ -49,9 +49,9 @@ type Engine struct {
 	allFns  []*ssa.Function
 	fnByKey map[string]*ssa.Function
 
-	implCache map[string][]types.Type
+	implCache      map[string][]types.Type
 	globalFactHook func(fr *Frame, g *ssa.Global, v Val)
-	allNamed  []types.Type
+	allNamed       []types.Type
 }
 
 func loadEngine(repo string, patterns ...string) (*Engine, error) {
@@ -533,7 +533,6 @@ func (e *Engine) placeArrays(addr ssa.Value, t types.Type) []string {
 	return storeArrays(t)
 }
 
-
 // freshRoot: the address lies inside an object this very call allocated (a local cell, or a slice it made and
 // indexes directly), possibly through phis over such objects, or inside a slice read back from such an object into
 // which only freshly made slices are ever stored (rows of a matrix built by the call).
@@ -604,7 +603,6 @@ func containerRoot(a ssa.Value) ssa.Value {
 	}
 	return nil
 }
-
 
 // onlyIndexed: the container is used by this call for element access and len/cap only (it is not handed to anyone
 // who could store something else into it)
